@@ -14,7 +14,7 @@ pub const DEF: PropDef = PropDef {
     id: "C06",
     workload,
     ops,
-    mandatory: &["equal", "differ_low_only", "differ_high_only", "sign_bit_only", "mixed_precision_equal", "mixed_precision_less", "mixed_precision_greater", "zero_vs_extreme", "both_top_bits_set"],
+    mandatory: &["equal", "differ_low_only", "differ_high_only", "sign_bit_only", "mixed_precision_equal", "mixed_precision_less", "mixed_precision_greater", "zero_vs_extreme", "both_top_bits_set", "monty_select_different_bit_lengths"],
     rule: "cases are pairs (a, b) plus a choice bit for Limb, Uint (1,2,3,4,6,8,16 limbs), Int (same), BoxedUint (1..=12 limbs, equal and different precision incl. zero-padded equal values), NonZero/Odd wrappers and option types; pairs are derived by relation (equal, differ only in lowest / highest limb / sign bit, 0 vs MIN/MAX, +-1, complement); every predicate (ct_eq/ne/lt/gt, ==, <, <=, cmp, partial_cmp, cmp_vartime, eq_vartime, is_zero/is_one/is_odd/is_even/is_nonzero, is_min/is_max/is_negative/is_positive) is checked against the mathematical order AND a == b => hash(a) == hash(b) with two hashers; select/assign/swap/negate are checked bitwise for both choice values. non-trivial = named relation class; distinct by hash of (op, widths, operands)",
 };
 
@@ -27,7 +27,68 @@ pub fn ops() -> Vec<(&'static str, Checker)> {
         ("uint.select", c_uint_select),
         ("boxed.select", c_boxed_select),
         ("option", c_option),
+        ("monty.select", c_monty_select),
     ]
+}
+
+/// Conditional select / assign / swap on Montgomery parameters and forms of two DIFFERENT moduli:
+/// the result must be exactly the chosen operand (every field), never a mixture.
+fn monty_select<const L: usize>(c: &Case, rep: &mut Rep) {
+    use crypto_bigint::modular::{MontyForm, MontyParams};
+    let (m1, m2, x1, x2) = (&c.a[0], &c.a[1], &c.a[2], &c.a[3]);
+    rep.class("monty_select_distinct_moduli");
+    if bits_of(m1) != bits_of(m2) {
+        rep.class("monty_select_different_bit_lengths");
+    }
+    let (p1, p2) = (MontyParams::<L>::new_vartime(od::<L>(m1)), MontyParams::<L>::new_vartime(od::<L>(m2)));
+    let (f1, f2) = (MontyForm::<L>::new(&u::<L>(x1), p1), MontyForm::<L>::new(&u::<L>(x2), p2));
+    for bit in 0..2u8 {
+        let ch = Choice::from(bit);
+        let (wp, wf) = if bit == 1 { (p2, f2) } else { (p1, f1) };
+        let (op, of) = if bit == 1 { (p1, f1) } else { (p2, f2) };
+        let sp = MontyParams::<L>::conditional_select(&p1, &p2, ch);
+        if sp != wp || sp.modulus() != wp.modulus() {
+            rep.fail("MontyParams::conditional_select", format!("choice {}: result is not the chosen operand: {:?} vs {:?}", bit, sp, wp));
+        }
+        let mut t = p1;
+        t.conditional_assign(&p2, ch);
+        if t != wp {
+            rep.fail("MontyParams::conditional_assign", format!("choice {}: {:?} vs {:?}", bit, t, wp));
+        }
+        let sf = MontyForm::<L>::conditional_select(&f1, &f2, ch);
+        if sf != wf || sf.retrieve() != wf.retrieve() || sf.params() != wf.params() {
+            rep.fail("MontyForm::conditional_select", format!("choice {}: result is not the chosen operand: {:?} vs {:?}", bit, sf, wf));
+        }
+        let mut t = f1;
+        t.conditional_assign(&f2, ch);
+        if t != wf || t.params() != wf.params() {
+            rep.fail("MontyForm::conditional_assign", format!("choice {}: {:?} vs {:?}", bit, t, wf));
+        }
+        let (mut a, mut b) = (f1, f2);
+        MontyForm::<L>::conditional_swap(&mut a, &mut b, ch);
+        if a != wf || b != of || a.params() != wf.params() || b.params() != of.params() {
+            rep.fail("MontyForm::conditional_swap", format!("choice {}: ({:?}, {:?})", bit, a, b));
+        }
+        let (mut a, mut b) = (p1, p2);
+        MontyParams::<L>::conditional_swap(&mut a, &mut b, ch);
+        if a != wp || b != op {
+            rep.fail("MontyParams::conditional_swap", format!("choice {}: ({:?}, {:?})", bit, a, b));
+        }
+        // the selected form must still compute in its own ring
+        let sq = sf.square().retrieve();
+        let want = (to_big(&ul(&wf.retrieve())) * to_big(&ul(&wf.retrieve()))) % to_big(if bit == 1 { m2 } else { m1 });
+        if to_big(&ul(&sq)) != want {
+            rep.fail("MontyForm::conditional_select.usable", format!("choice {}: square of the selected value is wrong", bit));
+        }
+    }
+}
+fn c_monty_select(c: &Case, rep: &mut Rep) {
+    match c.w[0] {
+        1 => monty_select::<1>(c, rep),
+        2 => monty_select::<2>(c, rep),
+        4 => monty_select::<4>(c, rep),
+        w => panic!("harness: width {}", w),
+    }
 }
 
 /// transparent hasher that records exactly what was fed
@@ -503,6 +564,18 @@ fn gen_pair(r: &mut Rng, n: usize) -> (Vec<u64>, Vec<u64>) {
 const WIDTHS: [usize; 7] = [1, 2, 3, 4, 6, 8, 16];
 
 pub fn workload(ctx: &mut Ctx) {
+    for &l in &[1usize, 2, 4] {
+        for _ in 0..ctx.iters(30_000) {
+            let m1 = gn::modulus(&mut ctx.rng, l, true);
+            let m2 = gn::modulus(&mut ctx.rng, l, true);
+            if m1 == m2 || to_big(&m1).is_one() || to_big(&m2).is_one() {
+                continue;
+            }
+            let x1 = from_big(&gn::below(&mut ctx.rng, &to_big(&m1), l), l);
+            let x2 = from_big(&gn::below(&mut ctx.rng, &to_big(&m2), l), l);
+            ctx.exec(Case::new("monty.select").w(l).a(m1).a(m2).a(x1).a(x2), c_monty_select);
+        }
+    }
     for &a in &gn::PALETTE {
         for &b in &gn::PALETTE {
             if ctx.mine() {
